@@ -88,6 +88,21 @@ class SizeOracle(walkers.DagWalker):
             # By default, count tree nodes
             measure = SizeOracle.MEASURE_TREE_NODES
 
+        if measure == SizeOracle.MEASURE_DAG_NODES or \
+           measure == SizeOracle.MEASURE_BOOL_DAG:
+            # A single traversal: collecting the set of nodes below each
+            # node would be quadratic in the size of the DAG
+            bool_dag = (measure == SizeOracle.MEASURE_BOOL_DAG)
+            seen = set()
+            to_visit = [formula]
+            while to_visit:
+                node = to_visit.pop()
+                if node not in seen:
+                    seen.add(node)
+                    if not (bool_dag and node.is_theory_relation()):
+                        to_visit.extend(node.args())
+            return len(seen)
+
         self.set_walking_measure(measure)
         res = self.walk(formula, measure=measure)
 
